@@ -638,8 +638,19 @@ impl Executor for Session {
             }
             Command::Meta(command) => {
                 // META is semantically read-only (§63.2), so it shares the
-                // lock with KQL rather than taking it exclusively.
-                let _guard = self.nexus.lock.read().await;
+                // lock with KQL rather than taking it exclusively. `PREVIEW KML`
+                // is the exception: it plans through the committing code path,
+                // which mints pending shells and discards them when it reports,
+                // so it has to exclude readers the way a KML dry run does.
+                let plans_kml = matches!(
+                    command,
+                    anda_kip::MetaCommand::Preview(anda_kip::PreviewCommand::Kml(_))
+                );
+                let (_shared, _exclusive) = if plans_kml {
+                    (None, Some(self.nexus.lock.write().await))
+                } else {
+                    (Some(self.nexus.lock.read().await), None)
+                };
                 let authority = match self.authority(&space, &auth).await {
                     Ok(authority) => authority,
                     Err(err) => return Response::from(err),
